@@ -71,8 +71,18 @@ def _plan(draw, max_rows):
     b = draw(_frame(n if draw(st.booleans()) else draw(st.integers(1, max_rows)), "b"))
     b["cols"][0]["kind"] = a["cols"][0]["kind"]
     b["cols"][0]["vals"] = draw(gen.values(a["cols"][0]["kind"], b["n"], mode="tight"))
+    if draw(st.integers(0, 19)) == 0:
+        # long frames (a thousand rows and more) whose key is already in ascending order: where "nothing to do"
+        # shortcuts of sort, unique, filter, slice ... would hand back the receiver's own arrays
+        m = draw(st.sampled_from([1000, 1001, 1024, 2049]))
+        step = draw(st.sampled_from([1, 3]))
+        a = {"n": m, "cols": [{"name": "k", "kind": "i", "vals": [i // step for i in range(m)]},
+                              {"name": "x", "kind": "f", "vals": [float(i % 7) for i in range(m)]},
+                              {"name": "a0", "kind": "s", "vals": ["s%03d" % (i % 50) for i in range(m)]}]}
+        b = {"n": m, "cols": [{"name": "k", "kind": "i", "vals": [i // step for i in range(m)]},
+                              {"name": "y", "kind": "f", "vals": [float(i % 5) for i in range(m)]}]}
     calls = [{"m": draw(st.sampled_from(FRAME_METHODS)), "recv": draw(st.integers(0, 5)), "arg": draw(st.integers(0, 5)),
-              "a": draw(st.integers(0, 7))} for _ in range(draw(st.integers(1, 4)))]
+              "a": draw(st.integers(0, 7)), "ro": draw(st.integers(0, 5)) == 0} for _ in range(draw(st.integers(1, 4)))]
     return {"target": "frame", "a": a, "b": b, "calls": calls}
 
 
@@ -243,9 +253,23 @@ def _check_frame(plan, ctx):
             x._group_colnames = (next(iter(dict.keys(x))),)
             ctx.cls("call_on_grouped_receiver")
         snaps = [build.snap_frame(o) for o in operands]
+        frozen = []
+        if c.get("ro"):
+            # the operands' columns are flagged read-only for the duration of the call (the flag can be lifted again
+            # later, so it is no licence to share them)
+            for o in operands:
+                for col in dict.values(o):
+                    if col.flags.writeable:
+                        col.flags.writeable = False
+                        frozen.append(col)
+            ctx.cls("call_on_read_only_columns")
         try:
-            with np.errstate(all="ignore"):
-                res = _call_frame(m, x, y, c["a"])
+            try:
+                with np.errstate(all="ignore"):
+                    res = _call_frame(m, x, y, c["a"])
+            finally:
+                for col in frozen:
+                    col.flags.writeable = True
         except Exception as e:
             if m in ("modify_grouped", "aggregate", "aggregate_lambda"):
                 x._group_colnames = snaps[0][2]
